@@ -16,6 +16,8 @@ fn dispatch(op: &str, args: &[String]) -> String {
         "classes" => ops_chars::classes(),
         "class1" => ops_chars::class1(args),
         "accept" => ops_xml::accept(args),
+        "parse" => ops_xml::parse(args),
+        "print" => ops_xml::print(args),
         "chardata" => ops_dom::chardata(args),
         "nameok" => ops_names::nameok(args),
         _ => "bad-op".to_string(),
